@@ -46,7 +46,89 @@ var baseTy = map[string]string{"a": "int", "n": "int", "x": "float", "y": "float
 type gen struct {
 	r        *kit.Rand
 	used     map[string]bool
-	wantInst int // > 0: the case wants this many CopyReset copies (groups)
+	wantInst int      // > 0: the case wants this many CopyReset copies (groups)
+	strs     []string // subjects designed for the regex patterns of this case (see regex): string values are drawn from them too
+}
+
+// ---- regex: pattern / subject pairs designed to SEPARATE readings of a pattern ----
+//
+// A pattern is built from a word W in one of the forms below (Q = W with its metacharacters escaped); its subjects are W
+// itself, strings that contain W as a PROPER substring (W as prefix, suffix, in the middle, twice), strings without W, the
+// empty string, W in another case, W next to a line break, W with its dot replaced. On these pairs an anchored literal
+// (equality), a one-sided anchor (prefix / suffix), an unanchored literal (substring), an escaped and an unescaped dot, the
+// case and multi-line flags, an escaped `$` and a real one all give DIFFERENT answers.
+var reWords = []string{"web01", "a", "abc", "cpu", "eu-west", "a.b", "web01.example.com", "x y", "Zz", "12", "é", "日本"}
+
+var reForms = []func(w, q string) string{
+	func(w, q string) string { return q },                          // literal: substring
+	func(w, q string) string { return "^" + q + "$" },              // anchored literal: equality
+	func(w, q string) string { return `\A` + q + `\z` },            // the same with \A \z
+	func(w, q string) string { return "^(?:" + q + ")$" },          // the same around a group
+	func(w, q string) string { return "^" + q },                    // prefix
+	func(w, q string) string { return q + "$" },                    // suffix
+	func(w, q string) string { return `\A` + q },                   //
+	func(w, q string) string { return q + `\z` },                   //
+	func(w, q string) string { return "^" + q + `\z` },             // mixed anchors
+	func(w, q string) string { return "(?i)^" + q + "$" },          // case flag
+	func(w, q string) string { return "(?i)" + q },                 //
+	func(w, q string) string { return "(?m)^" + q + "$" },          // multi-line: ^ $ at line breaks
+	func(w, q string) string { return "^" + q + "$|^zz$" },         // alternation of anchored literals
+	func(w, q string) string { return "(^" + q + "$)" },            // capture group around it
+	func(w, q string) string { return "^" + q + ".*$" },            //
+	func(w, q string) string { return "^.*" + q + "$" },            //
+	func(w, q string) string { return "^" + q + "+$" },             // repetition of the last character
+	func(w, q string) string { return "^" + w + "$" },              // UNescaped: a dot is any character
+	func(w, q string) string { return "^" + q + `\$` },             // an escaped $ is a character, not an anchor
+	func(w, q string) string { return "^^" + q + "$$" },            // repeated anchors
+	func(w, q string) string { return q + "^" },                    // anchor in the wrong place: never matches (unless W is empty)
+	func(w, q string) string { return "$" + q },                    //
+	func(w, q string) string { return "^" + strings.ReplaceAll(q, "-", `\-`) + "$" }, // escaped punctuation
+	func(w, q string) string { return "^$" },                       // only the empty string
+	func(w, q string) string { return "" },                         // everything
+	func(w, q string) string { return "^" },                        //
+	func(w, q string) string { return "$" },                        //
+}
+
+// reSubjects: the strings that separate the readings of a pattern built from w.
+func reSubjects(w string) []string {
+	last := w[len(w)-1:]
+	up, low := strings.ToUpper(w), strings.ToLower(w)
+	other := up
+	if other == w {
+		other = low
+	}
+	return []string{w, w + "1", "x" + w, "x" + w + "y", w + w, w[:len(w)-1], w[1:], "", "zzz", other, w + "\n", "\n" + w, "x\n" + w + "\ny",
+		strings.ReplaceAll(w, ".", "x"), w + last, w + "$", w + ".evil.org", "zz"}
+}
+
+// regex draws a pattern (3/4 designed, 1/4 from the small pool of classes / repetition) and remembers its subjects.
+func (g *gen) regex() *regexp.Regexp {
+	r := g.r
+	if r.Chance(1, 4) {
+		p := kit.Pick(r, rePool)
+		g.strs = append(g.strs, "a", "abc", "xabcx", "a\nc", "12", "x12", "", "é", "bb")
+		return regexp.MustCompile(p)
+	}
+	w := kit.Pick(r, reWords)
+	// the anchored / one-sided / plain literal forms are the frequent ones
+	f := reForms[r.Intn(len(reForms))]
+	if r.Chance(1, 3) {
+		f = reForms[r.Intn(9)]
+	}
+	re, err := regexp.Compile(f(w, regexp.QuoteMeta(w)))
+	if err != nil {
+		re = regexp.MustCompile(regexp.QuoteMeta(w))
+	}
+	g.strs = append(g.strs, reSubjects(w)...)
+	return re
+}
+
+// strVal: a string value - one of the regex subjects of this case (2/3 when there are any) or a pool string.
+func (g *gen) strVal() string {
+	if len(g.strs) > 0 && g.r.Chance(2, 3) {
+		return kit.Pick(g.r, g.strs)
+	}
+	return kit.Pick(g.r, strPool)
 }
 
 func (g *gen) valOf(ty string) interface{} {
@@ -57,9 +139,9 @@ func (g *gen) valOf(ty string) interface{} {
 	case "float":
 		return kit.Pick(r, floatPool)
 	case "string":
-		return kit.Pick(r, strPool)
+		return g.strVal()
 	case "ascii":
-		return kit.Pick(r, strPool)
+		return g.strVal()
 	case "numstr":
 		return kit.Pick(r, numStrPool)
 	case "bool":
@@ -69,7 +151,7 @@ func (g *gen) valOf(ty string) interface{} {
 	case "time":
 		return time.Unix(int64(r.Intn(2000000000)), int64(r.Intn(1000))).UTC()
 	case "regex":
-		return regexp.MustCompile(kit.Pick(r, rePool))
+		return g.regex()
 	}
 	return ast.MissingValue
 }
@@ -136,7 +218,8 @@ func (g *gen) expr(ty string, depth int) *ex {
 		case 6:
 			return un("not", g.expr("bool", d))
 		case 7:
-			return bin(kit.Pick(r, []string{"reEq", "reNe"}), g.leaf("string"), g.leaf("regex")) // the regex may sit in a lambda node (EvalRegex)
+			re := g.leaf("regex") // the regex may sit in a lambda node (EvalRegex); drawn first: its subjects feed the string values
+			return bin(kit.Pick(r, []string{"reEq", "reNe"}), g.leaf("string"), re)
 		case 8:
 			n := kit.Pick(r, []string{"a", "x", "s", "p", "z"})
 			g.used[n] = true
@@ -376,7 +459,21 @@ func genCase(r *kit.Rand, i int, thorough bool) []string {
 func (g *gen) directed(i int) (*ex, string, string, int) {
 	r := g.r
 	i64 := func() *ex { return lit(kit.Pick(r, intPool)) }
-	switch r.Intn(15) {
+	switch r.Intn(16) {
+	case 14: // `"host" =~ /pattern/`: a designed pattern against subjects that separate its readings (field, tag or literal)
+		re := lit(g.regex())
+		var sub *ex = g.ref("string")
+		if r.Chance(1, 6) {
+			sub = lit(g.strVal())
+		}
+		var e *ex = bin(kit.Pick(r, []string{"reEq", "reNe"}), sub, re)
+		switch r.Intn(6) {
+		case 0:
+			e = un("not", e)
+		case 1: // two patterns over the same word set
+			e = bin(kit.Pick(r, []string{"and", "or"}), e, bin(kit.Pick(r, []string{"reEq", "reNe"}), g.ref("string"), lam(lit(g.regex()))))
+		}
+		return e, "bool", "", 8
 	case 0: // dynamic math node asked directly, operand type changes between points (ill-typed point in between)
 		return bin(kit.Pick(r, []string{"plus", "minus", "mult"}), g.ref("int"), i64()), "int", "dInt", 50
 	case 1: // node with constant operand types whose operand fails its type guard at run time
@@ -500,10 +597,10 @@ func (g *gen) point(names []string, inst, flip int) evalOp {
 		case k < 68:
 			o.fields = append(o.fields, binding{n, g.valOf(ty)})
 		case k < 80:
-			o.tags = append(o.tags, binding{n, kit.Pick(r, strPool)})
+			o.tags = append(o.tags, binding{n, g.strVal()})
 		case k < 86:
 			o.fields = append(o.fields, binding{n, g.valOf(ty)})
-			o.tags = append(o.tags, binding{n, kit.Pick(r, strPool)})
+			o.tags = append(o.tags, binding{n, g.strVal()})
 		}
 	}
 	if r.Chance(1, 10) { // a field or tag nobody references, and one called "time" (ignored: time is the point's time)
